@@ -1113,6 +1113,21 @@ def check_c16(pid, tier, seed):
     shutil.rmtree(outdir, ignore_errors=True)
     os.makedirs(outdir)
     faildir = os.path.join(FOUND, pid, "found")
+    # regression replays: every configuration must agree and exit normally
+    nrep = 0
+    for path in sorted(glob.glob(os.path.join(VERIF, "replays", pid, "*.txt"))):
+        nrep += 1
+        outs_r = []
+        for i in range(16):
+            q = subprocess.run([exes[i], "--replay", path], capture_output=True, text=True, timeout=600)
+            t_ = q.stdout.split()
+            outs_r.append((q.returncode, [t_[4], t_[5], t_[7], i & 5] if q.returncode == 0 and len(t_) >= 8 else None))
+        bad = any(rc != 0 for rc, _ in outs_r) or len({o[0] for rc, o in outs_r if o}) > 1 or \
+            len({o[1] for rc, o in outs_r if o and o[1] != "-"}) > 1 or \
+            any(len({o[2] for rc, o in outs_r if o and o[2] != "-" and o[3] == g}) > 1 for g in (0, 1, 4, 5))
+        if bad:
+            res.violations.append((path, "regression replay: configurations disagree or an executor died: " +
+                                   ", ".join(f"{cfgx_desc(i)}:rc={rc}" for i, (rc, _) in enumerate(outs_r) if rc != 0)))
     batches = 16 if tier == "quick" else 128
     per = 1500 if tier == "quick" else 6000
     size = 120
@@ -1250,6 +1265,7 @@ def check_c16(pid, tier, seed):
         "configurations": [cfgx_desc(i) for i in range(16)],
         "executions": int(evaluations) * 16,
         "disagreements_found": len(disagreements),
+        "regression_replays": nrep,
         "inconclusive": res.inconclusive,
         "exhaustive": False,
     }
